@@ -237,6 +237,20 @@ var bodyTags = []string{
 	"{let $a: 1 /}", "{let $a}", "{/let}", "{/call}", "{param a: 1 /}", "{param a}", "{/param}", "{msg desc=\"d\"}", "{/msg}", "{plural $n}", "{case 0}", "{/plural}",
 	"{css a}", "{css $x, b}", "{literal}", "{/literal}", "{log}", "{/log}", "{sp}", "{nil}", "{lb}", "{$x}", "{$x|noAutoescape}", "{$x.y?.z[0]}", "{$ij.a}", "{GLOBAL}", "{a.b.C}", "{['a': 1]}",
 	"text ", "<b>", "//c\n", "/* c */", "{delcall a.t /}",
+	// text that looks like markup without being a tag, inside and outside messages
+	"1 < 2", "<-", "<{$x}>", "</", "<>", "< b>", "<b", "<!--", "-->", "&lt;", "a<b>c", "<a href=\"{$x}\">", "</a>", "<br/>", "<1>", "<_>", " > ", "<<", "<b <i>",
+}
+
+// Preludes are byte sequences a file may begin with before its first tag: byte-order marks, a
+// shebang, blank lines and carriage returns, a NUL.
+var Preludes = []string{"\xef\xbb\xbf", "\xef\xbb\xbf\n", "\xfe\xff", "\xff\xfe", "#!/usr/bin/soy\n", "\r\n", "\n\n\n", "\x00", " ", "\t", "\ufeff\ufeff", "// generated\n", "/* licence */\n"}
+
+// WithPrelude puts one of the Preludes in front of the input (one time in k).
+func WithPrelude(r *simrt.RNG, s string, k int) (string, bool) {
+	if r.Intn(k) != 0 {
+		return s, false
+	}
+	return Preludes[r.Intn(len(Preludes))] + s, true
 }
 
 // Skeleton builds a structurally plausible file: namespace, aliases, a few documented templates
